@@ -323,6 +323,9 @@ func (x *Exec) doCall1(fr *frame, st *State, instr ssa.CallInstruction, c *ssa.C
 		return x.havocCall(fr, st, c, resTypes, true)
 	}
 	if ct, key := x.fnValueContract(fr, c); ct != nil {
+		self := x.val(fr, st, c.Value)
+		x.fnSelf = &self // "self" in a fnvalue contract is the function value that is called
+		defer func() { x.fnSelf = nil }()
 		return x.applyContract(fr, st, ct, c.Signature(), nil, args, true, key, c)
 	}
 	x.uncontracted(st, "dynamic call of "+c.Value.Name())
@@ -475,6 +478,9 @@ func (x *Exec) inline(fr *frame, st *State, fn *ssa.Function, mc *ssa.MakeClosur
 func (x *Exec) calleeEnv(ct *gcl.Contract, sig *types.Signature, params []*ssa.Parameter, args []smt.T, iface bool) map[string]binding {
 	env := map[string]binding{}
 	idx := 0
+	if ct.FuncValue && x.fnSelf != nil {
+		env["self"] = binding{*x.fnSelf, types.Typ[types.UnsafePointer]}
+	}
 	if iface && ct.Kind == "iface" && !strings.Contains(ct.Name, "#") && isMethodContract(ct) {
 		env["this"] = binding{args[0], types.Typ[types.UnsafePointer]}
 		idx = 1
